@@ -132,7 +132,13 @@ class PackedPointRecord:
         """Tries to copy the values of the current dimensions from other_record"""
         for dim_name in self.point_format.dimension_names:
             try:
-                self[dim_name] = np.array(other_record[dim_name])
+                value = other_record[dim_name]
+                if isinstance(value, ScaledArrayView):
+                    # scaled extra dimension: copy the stored values as they are,
+                    # going through the scaled (float) values would lose precision
+                    self.array[dim_name] = value.array
+                else:
+                    self[dim_name] = np.array(value)
             except ValueError:
                 pass
 
